@@ -452,27 +452,36 @@ def check_lazy_eager(ctx, F):
     k3 = 'R4/lazy-equals-eager/formula'
     role3 = 'per-symbol formula is as_(prefix_sum * scale) + index in both, last boundary pinned to 2^PRECISION'
     shapes = {}
+
+    def scaled_kind(p):
+        """'raw' for as_(prefix * scale), 'clamped' for min(as_(prefix * scale), bound), else None"""
+        if p[0] == 'cast' and p[2][0] == 'bin' and p[2][1] == 'Mul':
+            return 'raw'
+        if p[0] == 'call' and str(p[1]).endswith(('Ord::min', 'cmp::min')) and len(p[2]) == 2:
+            ks = [scaled_kind(a) for a in p[2]]
+            if ks.count('raw') == 1:
+                return 'clamped'
+        return None
+    import props.C19 as c19
     for name, bodies in (('eager', F.closures_of(eager[0])), ('lazy', enc)):
         found = set()
         pinned = False
         for b in bodies:
             ev, paths = rules.evaluate(b)
             ctx.touch(b)
+            for txt, clamped in c19._float_to_fixed_sites(F, b) or []:
+                found.add('clamped' if clamped else 'raw')
             for r in paths or []:
                 terms = [e['result'] for e in r.events if e['kind'] == 'call'] + ([r.ret] if r.ret is not None else [])
                 for t in terms:
-                    for x in sym.subterms(t):
-                        if isinstance(x, tuple) and x and x[0] == 'bin' and x[1].split('.')[0] == 'Add':
-                            parts = flatten_add(x)
-                            casts = [p for p in parts if p[0] == 'cast' and p[2][0] == 'bin' and p[2][1] == 'Mul']
-                            if len(casts) == 1 and len(parts) >= 2:
-                                found.add(len(parts))
                     if sym.contains(t, lambda y: isinstance(y, tuple) and y and y[0] == 'call' and y[1].endswith('wrapping_pow2')):
                         pinned = True
-        shapes[name] = (bool(found), pinned)
+        shapes[name] = (found, pinned)
     # the eager path pins the last boundary in its callers (push of wrapping_pow2); accept that
-    if shapes['eager'][0] and shapes['lazy'][0] and shapes['lazy'][1]:
-        ctx.ok('R4', role3, lazy[0].defpath, 'both use as_(float_prefix_sum * scale) + integer index; lazy pins the last boundary to wrapping_pow2(PRECISION)', key=k3)
+    if shapes['eager'][0] and shapes['lazy'][0] and shapes['eager'][0] != shapes['lazy'][0]:
+        ctx.bad('R4', role3, lazy[0].defpath, 'the eager constructor converts prefix sums as %s and the lazy model as %s: near the upper end (where rounding pushes the scaled sum past the free weight) the two produce different tables for the same probabilities' % (sorted(shapes['eager'][0]), sorted(shapes['lazy'][0])), key=k3, loc=rules.loc(lazy[0]))
+    elif shapes['eager'][0] and shapes['lazy'][0] and shapes['lazy'][1]:
+        ctx.ok('R4', role3, lazy[0].defpath, 'both use %s as_(float_prefix_sum * scale) + integer index; lazy pins the last boundary to wrapping_pow2(PRECISION)' % '/'.join(sorted(shapes['eager'][0])), key=k3)
     else:
         ctx.unresolved('R4', role3, lazy[0].defpath, 'formula shape not recognised: %s' % shapes, key=k3)
 
